@@ -120,6 +120,9 @@ fn convert_oracle(s: &Spec, g: &G, q: &Q) -> Result<(), String> {
         if qvars != vars {
             return Err(format!("bond {} acts on {:?}, Ising bond acts on {:?}", b, qvars, vars));
         }
+        if b < e && s.edges[b].1 != 0.0 && q.get_bonds()[b].is_constant_diag() {
+            stat("convert_edges_flagged_constant_diag_though_J_nonzero", 1);
+        }
         if q.get_bonds()[b].is_constant() != constant {
             return Err(format!("bond {} constant flag {} != {}", b, q.get_bonds()[b].is_constant(), constant));
         }
@@ -155,10 +158,13 @@ fn convert_oracle(s: &Spec, g: &G, q: &Q) -> Result<(), String> {
     if mq.get_cutoff() < mg.get_cutoff() {
         return Err("container shrank".into());
     }
+    // one run-independent constant: N*Gamma; when a non-zero field is below the library's absolute
+    // threshold (|h| <= f64::EPSILON, small energy units) neither sampler has field bonds and the Ising
+    // offset still counts N|h| (theorem convert_offset; the dropped field itself is C01's finding F24)
     let d = g.get_offset() - q.get_offset();
-    let want = s.nv as f64 * s.gamma;
+    let want = s.nv as f64 * s.gamma + if has_field { 0.0 } else { s.nv as f64 * s.h.abs() };
     if d != want {
-        return Err(format!("offset difference {} != N*Gamma = {}", d, want));
+        return Err(format!("offset difference {:e} != N*Gamma{} = {:e}", d, if has_field || s.h == 0.0 { "" } else { " + N|h| (field below threshold)" }, want));
     }
     Ok(())
 }
@@ -245,6 +251,11 @@ struct Opts {
     /// option: the converted sampler sweeps with Metropolis); 2 = heat-bath on both
     /// (`set_enable_heatbath(true)` on the Ising sampler, `set_do_heatbath(true)` on its conversion)
     hb: u8,
+    /// step through the parts: `single_diagonal_step; single_cluster_step` on the Ising sampler against
+    /// `diagonal_update; [cluster_update]; flip_free_bits` on the conversion (the same composition as the
+    /// two `timestep`s, without the Ising `timestep`'s `debug_assert!(verify())`, which uses an absolute
+    /// weight threshold and fires in small energy units on the unchanged library: finding F24)
+    split: bool,
 }
 
 /// Returns the observation token: `same` or `diverged@<step>:<what>`
@@ -257,7 +268,12 @@ fn lockstep_case(s: &Spec, cutoff: usize, seed: u64, state: Vec<bool>, beta: f64
         g.set_enable_heatbath(true);
     }
     for _ in 0..kpre {
-        g.timestep(beta);
+        if opts.split {
+            g.single_diagonal_step(beta);
+            g.single_cluster_step();
+        } else {
+            g.timestep(beta);
+        }
     }
     let gc = g.clone();
     let cutoff_at_conversion = g.get_cutoff();
@@ -276,8 +292,18 @@ fn lockstep_case(s: &Spec, cutoff: usize, seed: u64, state: Vec<bool>, beta: f64
     let (mut sum_g, mut sum_q) = (0usize, 0usize);
     for t in 0..kpost {
         if let Err(p) = catch(|| {
-            g.timestep(beta);
-            q.timestep(beta);
+            if opts.split {
+                g.single_diagonal_step(beta);
+                g.single_cluster_step();
+                q.diagonal_update(beta);
+                if q.should_do_cluster_update() {
+                    q.cluster_update().unwrap();
+                }
+                q.flip_free_bits();
+            } else {
+                g.timestep(beta);
+                q.timestep(beta);
+            }
         }) {
             observed = format!("panic@{}:{}", t + 1, p.replace(' ', "_").chars().take(60).collect::<String>());
             break;
@@ -327,7 +353,7 @@ fn lockstep_case(s: &Spec, cutoff: usize, seed: u64, state: Vec<bool>, beta: f64
             s.h,
             if !gate && s.h != 0.0 { " [F4: generic sampler skips the cluster update when h != 0]" } else { "" }
         )))
-    } else if ((eg - eq) - want).abs() > 1e-9 * (1.0 + want.abs()) {
+    } else if ((eg - eq) - want).abs() > 1e-9 * (want.abs() + eg.abs() + eq.abs()) {
         Some(Err(format!("energies differ by {} instead of N*Gamma={}", eg - eq, want)))
     } else {
         Some(Ok(()))
@@ -439,6 +465,22 @@ fn main() {
             stat(if cutoff < s.nv { "convert_cutoff_below_nvars" } else { "convert_cutoff_ge_nvars" }, 1);
             convert_case(&s, cutoff, gen.next(), state, beta, k);
         }
+        // small energy units: J, Gamma, h scaled exactly by 2^-56 / 2^-60 (matrix-level comparison only, k = 0).
+        // The library's flags use an ABSOLUTE tolerance (f64::EPSILON), so here every edge table [0,2|J|,2|J|,0]
+        // is flagged constant-along-diagonal although it is not (F23 class); `Interaction::at` must index it
+        // properly all the same.
+        let sreps = if a.thorough { 900 } else { 90 };
+        for rep in 0..sreps {
+            let mut s = gen_spec(&mut gen, rep % 3);
+            let scale = if rep % 2 == 0 { (2.0f64).powi(-56) } else { (2.0f64).powi(-60) };
+            s.edges.iter_mut().for_each(|e| e.1 *= scale);
+            s.gamma *= scale;
+            s.h *= scale;
+            let cutoff = 1 + gen.below(2 * s.nv as u64) as usize;
+            let state: Vec<bool> = (0..s.nv).map(|_| gen.coin()).collect();
+            stat("convert_small_units", 1);
+            convert_case(&s, cutoff, gen.next(), state, 1.0, 0);
+        }
         // fixed small case with a field (2 spins, h = 1/2)
         let w = Spec { edges: vec![((0, 1), 1.0)], gamma: 1.0, h: 0.5, nv: 2 };
         convert_case(&w, 2, 7, vec![false, false], 1.0, 0);
@@ -463,13 +505,13 @@ fn main() {
             let seed = gen.next();
             let state_for_diag = state.clone();
             if hk == 0 {
-                let same = lockstep_case(&s, cutoff, seed, state.clone(), beta, kpre, kpost, Opts { rvb: false, hb: 0 }, true, "");
+                let same = lockstep_case(&s, cutoff, seed, state.clone(), beta, kpre, kpost, Opts { rvb: false, hb: 0, split: false }, true, "");
                 hz += 1;
                 hz_same += same as usize;
                 // heat-bath sweeps on BOTH samplers (the option is set on the conversion by hand): same oracle
                 let c_small = 1 + gen.below(3) as usize; // growth has to happen after the conversion
                 let kp = if rep % 2 == 0 { 0 } else { (rep % 5) as usize };
-                let same = lockstep_case(&s, c_small, seed ^ 0xb0, state.clone(), beta, kp, kpost, Opts { rvb: false, hb: 2 }, true, "-hb");
+                let same = lockstep_case(&s, c_small, seed ^ 0xb0, state.clone(), beta, kp, kpost, Opts { rvb: false, hb: 2, split: false }, true, "-hb");
                 hb2 += 1;
                 hb2_same += same as usize;
                 // transverse field exactly 0 (h = 0): the Ising sampler still flips the whole string with
@@ -482,18 +524,18 @@ fn main() {
                     }
                 });
                 let b0 = *gen.pick(&[2.0, 4.0]);
-                let same = lockstep_case(&s0, cutoff, seed ^ 0x60, state.clone(), b0, kpre, kpost, Opts { rvb: false, hb: 0 }, true, "-g0");
+                let same = lockstep_case(&s0, cutoff, seed ^ 0x60, state.clone(), b0, kpre, kpost, Opts { rvb: false, hb: 0, split: false }, true, "-g0");
                 g0 += 1;
                 g0_same += same as usize;
                 if rep % 8 == 0 {
                     // options the conversion does not carry (RVB needs equal |J|: not exercised here; heat-bath)
-                    let same = lockstep_case(&s, cutoff, seed, state, beta, kpre, kpost, Opts { rvb: false, hb: 1 }, false, "-opts");
+                    let same = lockstep_case(&s, cutoff, seed, state, beta, kpre, kpost, Opts { rvb: false, hb: 1, split: false }, false, "-opts");
                     op += 1;
                     op_same += same as usize;
                 }
             } else {
                 // h != 0: observation recorded, judged only on the recorded witness below
-                let same = lockstep_case(&s, cutoff, seed, state.clone(), beta, kpre, kpost, Opts { rvb: false, hb: 0 }, false, "-h");
+                let same = lockstep_case(&s, cutoff, seed, state.clone(), beta, kpre, kpost, Opts { rvb: false, hb: 0, split: false }, false, "-h");
                 hn += 1;
                 hn_same += same as usize;
             }
@@ -512,11 +554,29 @@ fn main() {
         stat("lockstep_heatbath_both_same", hb2_same);
         stat("lockstep_gamma_zero_runs", g0);
         stat("lockstep_gamma_zero_same", g0_same);
+        // small energy units, stepping through the parts (see Opts::split), beta scaled by the inverse factor
+        let sreps = if a.thorough { 300 } else { 30 };
+        let (mut sm, mut sm_same) = (0, 0);
+        for rep in 0..sreps {
+            let mut s = gen_spec(&mut gen, 0);
+            let k = if rep % 2 == 0 { 56 } else { 60 };
+            let scale = (2.0f64).powi(-k);
+            s.edges.iter_mut().for_each(|e| e.1 *= scale);
+            s.gamma *= scale;
+            let beta = *gen.pick(&betas) * (2.0f64).powi(k);
+            let cutoff = 1 + gen.below(2 * s.nv as u64) as usize;
+            let state: Vec<bool> = (0..s.nv).map(|_| gen.coin()).collect();
+            let same = lockstep_case(&s, cutoff, gen.next(), state, beta, (rep % 7) as usize, 20, Opts { rvb: false, hb: 0, split: true }, true, "-small");
+            sm += 1;
+            sm_same += same as usize;
+        }
+        stat("lockstep_small_units_runs", sm);
+        stat("lockstep_small_units_same", sm_same);
         // F4 witness: fixed input, h != 0
         let w = Spec { edges: vec![((0, 1), 1.0)], gamma: 1.0, h: 0.5, nv: 2 };
-        lockstep_case(&w, 2, 7, vec![false, false], 1.0, 0, 20, Opts { rvb: false, hb: 0 }, true, "");
+        lockstep_case(&w, 2, 7, vec![false, false], 1.0, 0, 20, Opts { rvb: false, hb: 0, split: false }, true, "");
         // convert_test of the crate, as a fixed case (3-site ring, h = 0)
         let t = Spec { edges: vec![((0, 1), 1.0), ((1, 2), 1.0), ((2, 0), 1.0)], gamma: 1.0, h: 0.0, nv: 3 };
-        lockstep_case(&t, 3, 1234, vec![false, false, false], 1.0, 10, 20, Opts { rvb: false, hb: 0 }, true, "");
+        lockstep_case(&t, 3, 1234, vec![false, false, false], 1.0, 10, 20, Opts { rvb: false, hb: 0, split: false }, true, "");
     }
 }
